@@ -123,7 +123,7 @@ Qed.
 Lemma step5_T : forall n M0 s, T5 n M0 s ->
   exists s', zstep5 n s = Some s' /\ T3 n M0 s' /\ kc n s < kc n s'.
 Proof.
-  intros n M0 s [P [D [K [SCV [PC [CP [rank PR]]]]]]].
+  intros n M0 s [P [K [SCV [PC [CP [rank PR]]]]]].
   pose proof P as [B [PZ [Hr0 [Hc0 [Hz0 Hns]]]]].
   pose proof (b_wf _ _ _ B) as [_ [SM _]].
   assert (NN : step5_path (S (S n)) (sM s) [sZ0 s] <> None).
@@ -137,8 +137,7 @@ Proof.
     - simpl. lia. }
   assert (E : exists s', zstep5 n s = Some s').
   { unfold zstep5, step5. destruct (step5_path (S (S n)) (sM s) [sZ0 s]); [eexists; reflexivity | congruence]. }
-  destruct E as [s' E]. exists s'. split; [exact E|]. split; [split|].
+  destruct E as [s' E]. exists s'. split; [exact E|]. split.
   - exact (step5_P n M0 s s' P E).
-  - apply (shiftedD_C n M0 s); [exact (step5_C n s s' E) | exact D].
   - exact (step5_kc n M0 s s' P E).
 Qed.
